@@ -265,7 +265,7 @@ def small_scope(cfg, quick):
     big = big[0] if big else palette[-1]
     classes = sorted({small, mid, big})
     if quick and cfg != "low":
-        classes = sorted({small, big})      # quick tier: the three size classes only under the lowered thresholds
+        classes = sorted({small, big})      # reduced enumeration: two size classes (three under the lowered thresholds)
     cap = max(palette)
     progs = []
     # (A)
